@@ -52,6 +52,9 @@ def gen(rs: int, tier: str, index: int) -> dict:
             if isinstance(m.get("task"), int) and s["tasks"][m["task"]].get("sync"):
                 m["task"] = 0
                 m.pop("pool_delay_us", None)
+    elif index % 10 == 3 and s["config"]["workers"] == 1:
+        # the real `taskiq worker` child entry point (cli/worker/run.py start_listen): it creates and configures the event loop itself
+        s["config"]["entry"] = "cli"
     return s
 
 
@@ -60,51 +63,56 @@ def oracle(script: dict, run: Any) -> List[Violation]:
     out: List[Violation] = []
     cfg = script["config"]
     A = cfg.get("A")
-    live: Dict[str, List[Any]] = {}
-    bodies: Dict[str, set] = {}
+    live: Dict[Any, List[Any]] = {}
+    bodies: Dict[Any, set] = {}
     peak_probe: Dict[str, int] = {}
     probe_started = False
     order_take: Dict[str, List[Any]] = {}
     order_enter: Dict[str, List[Any]] = {}
     lf = h.kind("listen_fail")
     fail_seq = lf[0][0] if lf else None
+    # after broker.listen() failed, run_receiver_task starts a new receiver (with its own limit) while callbacks of the failed one
+    # may still be running: the limit is judged per receiver session (the deliveries taken between two listen failures)
+    session_now: Dict[str, int] = {}
+    session_of: Dict[Any, Any] = {}
     for e in h.events:
         kind, node, d = e[3], e[2], e[4]
-        if fail_seq is not None and e[0] >= fail_seq and kind in ("cb_enter", "fn_enter", "take"):
-            # after broker.listen() failed, run_receiver_task starts a new receiver while callbacks of the old one may still be
-            # running: transport failures are not in C03's quantifier, so the upper limit is not judged from here on; the lower
-            # bound (no slot was lost: the probe still reaches max_async_tasks) and progress are still checked below.
-            if kind == "cb_enter" and probe_started:
-                lv = live.setdefault(node, [])
-                lv.append(d)
-                peak_probe[node] = max(peak_probe.get(node, 0), len(lv))
+        if kind == "listen_fail":
+            wn = f"w{e[5]['w']}"
+            for n2 in list(session_now) + [wn]:
+                if n2 == wn or n2.startswith(wn + "."):
+                    session_now[n2] = session_now.get(n2, 0) + 1
             continue
         if kind == "probe_start":
             probe_started = True
         elif kind == "take":
+            session_of[d] = (node, session_now.setdefault(node, 0))
             order_take.setdefault(node, []).append(d)
         elif kind == "cb_enter":
-            lv = live.setdefault(node, [])
+            key = session_of.get(d, (node, 0))
+            lv = live.setdefault(key, [])
             lv.append(d)
             order_enter.setdefault(node, []).append(d)
             if A and len(lv) > A:
-                out.append(Violation("C03/limit-exceeded", f"worker {node} processes {len(lv)} messages at once > max_async_tasks={A} at event {e[0]}",
+                out.append(Violation("C03/limit-exceeded", f"worker {node} processes {len(lv)} messages at once > max_async_tasks={A} at event {e[0]}"
+                                     + (f" (all taken by the receiver started after listen failure #{key[1]})" if key[1] else ""),
                                      event=e[0], live=len(lv)))
                 break
             if probe_started:
                 peak_probe[node] = max(peak_probe.get(node, 0), len(lv))
         elif kind == "cb_exit":
-            lv = live.get(node, [])
+            lv = live.get(session_of.get(d, (node, 0)), [])
             if d in lv:
                 lv.remove(d)
         elif kind == "fn_enter":
-            bodies.setdefault(node, set()).add(d)
-            if A and len(bodies[node]) > A:
-                out.append(Violation("C03/bodies-exceed-limit", f"worker {node} has {len(bodies[node])} task functions running at once > max_async_tasks={A} at event {e[0]} "
-                                     f"(deliveries {sorted(bodies[node])[:6]})", event=e[0]))
+            key = session_of.get(d, (node, 0))
+            bodies.setdefault(key, set()).add(d)
+            if A and len(bodies[key]) > A:
+                out.append(Violation("C03/bodies-exceed-limit", f"worker {node} has {len(bodies[key])} task functions running at once > max_async_tasks={A} at event {e[0]} "
+                                     f"(deliveries {sorted(bodies[key])[:6]})", event=e[0]))
                 break
         elif kind == "fn_exit":
-            bodies.get(node, set()).discard(d)
+            bodies.get(session_of.get(d, (node, 0)), set()).discard(d)
     if A == 1 and fail_seq is None:
         for node, ent in order_enter.items():
             tk = [d for d in order_take.get(node, []) if d in set(ent)]
@@ -135,7 +143,8 @@ def probes(script: dict, run: Any) -> Dict[str, int]:
     res = {"probe_ran": int(bool(h.kind("probe_start"))), "hook_raised": int(run.fault_counts.get("hook_raise", 0) > 0),
            "callback_raised": int(any(e[5].get("how") != "ok" for e in h.kind("cb_exit"))),
            "timeout_fired": int(any(e[5].get("how") == "cancelled" for e in h.kind("fn_exit"))),
-           "limit_reached": 0, "api_entry_reconnected_after_listen_failure": int(bool(h.kind("listen_fail")))}
+           "limit_reached": 0, "api_entry_reconnected_after_listen_failure": int(bool(h.kind("listen_fail"))),
+           "cli_entry_with_probe": int(script["config"].get("entry") == "cli" and bool(h.kind("probe_start")))}
     A = script["config"].get("A")
     if A:
         live = 0
